@@ -269,7 +269,7 @@ def case_algebra(rec):
             return W.Log(a.f - b.f)
         return lde(a, b)
     U.log_diff_exp = _lde
-    U.log = lambda x: x.log() if isinstance(x, W.Lin) else math.log(x)
+    U.log = lambda x: x.log() if isinstance(x, W.Lin) else (W.Log(RF(Poly.const(x))) if isinstance(x, int) and x > 0 else math.log(x))
     n_ok = [0]
 
     def eq(label, got, want):
@@ -292,6 +292,19 @@ def case_algebra(rec):
         eq("a+2", a + 2, A + RF(Poly.const(2)))
         eq("3*a", 3 * a, A * RF(Poly.const(3)))
         eq("1-a", 1 - a, RF(Poly.const(1)) - A)
+        # mixed operations with plain numbers, every operator and its reflected form
+        eq("2+a", 2 + a, A + RF(Poly.const(2)))
+        eq("a-2", a - 2, A - RF(Poly.const(2)))
+        eq("a*3", a * 3, A * RF(Poly.const(3)))
+        eq("a/2", a / 2, A / RF(Poly.const(2)))
+        eq("2/a", 2 / a, RF(Poly.const(2)) / A)
+        acc2 = U.LogRepFloat(log_val=W.Log(_w("a")))
+        acc2 += 0
+        acc2 += 2
+        acc2 += b
+        eq("in-place a+=0; a+=2; a+=b", acc2, A + RF(Poly.const(2)) + B)
+        if (a != b) != (not (a == b)):
+            rec.candidate(key="logrep:order", label="!= inconsistent with ==", payload={"algebra": "order"})
         s = a - b
         eq("a-b", s, A - B)
         acc = U.LogRepFloat(log_val=W.Log(_w("a")))
@@ -370,6 +383,56 @@ def case_specials(rec):
                         bad.append(("LogRepFloat comparison", a, b, None))
             except (OverflowError, ValueError, ZeroDivisionError) as e:
                 bad.append((type(e).__name__, a, b, str(e)))
+    # mixed operations of a LogRepFloat with plain numbers (every operator, reflected forms, in-place accumulation, comparisons,
+    # construction from a plain value): agree with float arithmetic on the plain value wherever that value is representable,
+    # and raise nothing where it is not (the plain value of a log value above 709.78 is documented to be inf)
+    def close(g, w_):
+        if isinstance(g, U.LogRepFloat):
+            g = g.val
+        if math.isnan(w_):
+            return True  # (inf - inf etc.: undefined in the reals)
+        if math.isinf(w_) or math.isinf(g):
+            return g == w_
+        return abs(g - w_) <= 1e-12 * max(abs(w_), 1e-300)
+    for a in vals:
+        if a == inf:
+            continue
+        for c in (0.0, 1e-300, 0.5, 1.0, 2.5, 1e300, 3):
+            n += 1
+            try:
+                x = U.LogRepFloat(log_val=a)
+                try:
+                    v = math.exp(a)
+                except OverflowError:
+                    v = inf
+                chk = [("x+c", x + c, v + c), ("c+x", c + x, c + v), ("x-c", x - c, v - c), ("c-x", c - x, c - v), ("x*c", x * c, v * c if not (v == inf and c == 0) else math.nan),
+                       ("c*x", c * x, c * v if not (v == inf and c == 0) else math.nan)]
+                if c != 0:
+                    chk.append(("x/c", x / c, v / c))
+                if v != 0:
+                    chk.append(("c/x", c / x, c / v))
+                for nm, g, w_ in chk:
+                    if not close(g, w_):
+                        bad.append((f"LogRepFloat mixed {nm}", a, c, repr(g)))
+                if ((x < c), (x <= c), (x > c), (x >= c), (x == c), (x != c)) != ((v < c), (v <= c), (v > c), (v >= c), (v == c), (v != c)):
+                    bad.append(("LogRepFloat mixed comparison", a, c, None))
+                y = U.LogRepFloat(log_val=a)
+                y += c
+                if not isinstance(y, U.LogRepFloat) or (v + c < 1e308 and v + c > 0 and abs(y.log_val - math.log(v + c)) > 1e-12 * max(1.0, abs(math.log(v + c)))) \
+                        or (c == 0 and y.log_val != a):
+                    bad.append(("LogRepFloat mixed in-place x += c", a, c, repr(y)))
+                if c > 0 and (U.LogRepFloat(c).log_val != math.log(c) or not close(U.LogRepFloat(val=c).val, float(c))):
+                    bad.append(("LogRepFloat(val)", c, None, None))
+            except (OverflowError, ValueError, ZeroDivisionError) as e:
+                bad.append((type(e).__name__ + " in mixed operation", a, c, str(e)))
+    if U.LogRepFloat(0.0).log_val != -inf or U.LogRepFloat(val=0.0).val != 0.0:
+        bad.append(("LogRepFloat(0)", 0.0, None, None))
+    for kw in ({"val": -1.0}, {}, {"val": 1.0, "log_val": 0.0}):
+        try:
+            U.LogRepFloat(**kw)
+            bad.append(("LogRepFloat constructor accepts invalid arguments", str(kw), None, None))
+        except ValueError:
+            pass
     for v in vals:
         n += 1
         try:
